@@ -87,7 +87,8 @@ def correspondence(res, tier, seed):
 
 def arrays(r, shape):
     n = int(np.prod(shape)) if shape else 1
-    tmin = np.array([float(C.dyadic(r, 200, 320, 64)) for _ in range(n)]).reshape(shape)
+    lo, hi = r.choice([(200, 320), (-60, 45), (-40, -1)])        # Kelvin, Celsius (both signs), Celsius below freezing
+    tmin = np.array([float(C.dyadic(r, lo, hi, 64)) for _ in range(n)]).reshape(shape)
     rng = np.array([float(C.dyadic(r, 0, 40, 64) + Fraction(1, 64)) for _ in range(n)]).reshape(shape)
     sk = np.array([r.randint(0, 64) / 64 for _ in range(n)]).reshape(shape)
     return tmin, rng, sk
@@ -111,7 +112,7 @@ def laws(u, tas, tmin, tmax):
 def pr_laws(u, pr, prsn):
     out = []
     ratio = u.get_prsnratio(pr, prsn)
-    out.append(("pr_prsn_roundtrip", np.max(np.abs(u.get_prsn(pr, ratio) - prsn))))
+    out.append(("pr_prsn_roundtrip", np.max(np.abs(u.get_prsn(pr, ratio) - prsn) / np.max(pr))))
     nzm = prsn != 0
     if np.any(nzm):
         out.append(("pr_pr_roundtrip", np.max(np.abs((u.get_pr(prsn[nzm], ratio[nzm]) - pr[nzm]) / pr[nzm]))))
@@ -128,7 +129,8 @@ def one_search_case(u, r, shape):
         if not (err <= 1e-9 * 400):
             bad.append((name, float(err)))
     n = int(np.prod(shape)) if shape else 1
-    pr = np.array([r.randint(1, 4096) / 4096 for _ in range(n)]).reshape(shape)
+    unit = r.choice([1.0, 1.0, 2.0 ** -16, 2.0 ** -26])              # mm/day, or a flux in kg m-2 s-1 down to trace amounts (exact scalings)
+    pr = np.array([r.randint(1, 4096) / 4096 for _ in range(n)]).reshape(shape) * unit
     prsn = pr * np.array([r.randint(0, 64) / 64 for _ in range(n)]).reshape(shape)
     pr1, prsn1 = np.atleast_1d(pr), np.atleast_1d(prsn)
     for name, err in pr_laws(u, pr1, prsn1):
